@@ -37,6 +37,7 @@ PickAxes ==
     /\ \E nd \in 1 .. MaxDim : \E axes \in [1 .. nd -> AxisIds] :
             /\ (nd >= 2 => \A d \in 1 .. nd : Axis(axes[d]).n <= 3 /\ axes[d] # 5)          \* keep the N-d systems small
             /\ (nd = 3 => \A d \in 1 .. nd : axes[d] \in {1, 2, 7, 6})
+            /\ (nd = 4 => \A d \in 1 .. nd : axes[d] \in {1, 2, 7})
             /\ prob' = [axes |-> axes]
     /\ ph' = "axes" /\ UNCHANGED ax
 PickProblem ==
@@ -46,6 +47,7 @@ PickProblem ==
             /\ \A d \in 1 .. nd : pens[d] <= Axis(axes[d]).n
             /\ (scalar => \A d \in 1 .. nd : lam[d] = lam[1] /\ pens[d] = pens[1])
             /\ ((Small3D /\ nd = 3) => scalar)
+            /\ (nd = 4 => scalar /\ dp # 2)
             /\ prob' = [axes |-> axes, pens |-> pens, lam |-> lam, data |-> dp, weights |-> wp, scalar |-> scalar]
     /\ ph' = "problem" /\ UNCHANGED ax
 Next == PickAxis \/ PickAxes \/ PickProblem
